@@ -54,8 +54,10 @@ func drvAfter(op string) {
 }
 
 func (c *simConn) Prepare(q string) (driver.Stmt, error) { return c.c.Prepare(q) }
-func (c *simConn) Close() error                           { return c.c.Close() }
-func (c *simConn) Begin() (driver.Tx, error)              { return c.BeginTx(context.Background(), driver.TxOptions{}) }
+func (c *simConn) Close() error                          { return c.c.Close() }
+func (c *simConn) Begin() (driver.Tx, error) {
+	return c.BeginTx(context.Background(), driver.TxOptions{})
+}
 
 func (c *simConn) BeginTx(ctx context.Context, o driver.TxOptions) (driver.Tx, error) {
 	switch k := drvSeam("Begin"); k {
@@ -79,7 +81,25 @@ func (c *simConn) QueryContext(ctx context.Context, q string, args []driver.Name
 	}
 	r, err := c.c.QueryContext(ctx, q, args)
 	drvAfter("Query")
-	return r, err
+	if err != nil {
+		return nil, err
+	}
+	return &simRows{r: r}, nil
+}
+
+// simRows passes every row fetch through the seam: a read can fail while stepping the statement
+// (SQLITE_BUSY, an I/O error) even though issuing the query succeeded.
+type simRows struct{ r driver.Rows }
+
+func (s *simRows) Columns() []string { return s.r.Columns() }
+func (s *simRows) Close() error      { return s.r.Close() }
+func (s *simRows) Next(dest []driver.Value) error {
+	if k := drvSeam("Next"); k != "" {
+		return injected(k)
+	}
+	err := s.r.Next(dest)
+	drvAfter("Next")
+	return err
 }
 
 func (c *simConn) ExecContext(ctx context.Context, q string, args []driver.NamedValue) (driver.Result, error) {
